@@ -946,9 +946,17 @@ def rule_special_variant_matched(ctx):
     enclosing test has established that the tag has no special variant."""
     from .codec import ast_walk
     prog = ctx.prog
-    f = prog.func("HTIfind_dd")
+    total = 0
+    for fname, lookvar, floor_ in (("HTIfind_dd", "look_tag", 3), ("HTIcount_dd", "cnt_tag", 2)):
+        total += _special_match_in(ctx, prog, fname, lookvar, floor_)
+    return total
+
+
+def _special_match_in(ctx, prog, fname, lookvar, floor_):
+    from .codec import ast_walk
+    f = prog.func(fname)
     if f is None:
-        ctx.unrecognised("SPECIALMATCH", "SPECIALMATCH:HTIfind_dd", "-", "HTIfind_dd not found")
+        ctx.unrecognised("SPECIALMATCH", "SPECIALMATCH:%s" % fname, "-", "%s not found" % fname)
         return 0
     sites = []
 
@@ -960,7 +968,7 @@ def rule_special_variant_matched(ctx):
 
     def vis(nn, st):
         if nn[0] == "if":
-            if any(is_tag_cmp(x, "look_tag") for x in walk(nn[1], True)):
+            if any(is_tag_cmp(x, lookvar) for x in walk(nn[1], True)):
                 outer = [a for a in st if a[0] == "if"]
                 sites.append((nn, outer, [a for a in st]))
         return True
@@ -968,7 +976,7 @@ def rule_special_variant_matched(ctx):
     n = 0
     for k, (nn, outer, st) in enumerate(sites):
         n += 1
-        key = "SPECIALMATCH:HTIfind_dd#%d" % (k + 1)
+        key = "SPECIALMATCH:%s#%d" % (fname, k + 1)
         same = any(is_tag_cmp(x, "special_tag") for x in walk(nn[1], True))
         # enclosed by `if (special_tag == DFTAG_NULL)` (then-arm): nothing to match
         none = False
@@ -986,7 +994,7 @@ def rule_special_variant_matched(ctx):
             ctx.holds("SPECIALMATCH", key, f.where(nn[4]), "only reached when the tag has no special variant (special_tag == DFTAG_NULL)", nontrivial=False)
         else:
             ctx.violated("SPECIALMATCH", key, f.where(nn[4]), "`%s` matches the base tag only: an element stored under the special variant of the tag is not found by this search mode" % render(nn[1])[:80])
-    ctx.floor("SPECIALMATCH", 3, n, "(tag matches in HTIfind_dd)")
+    ctx.floor("SPECIALMATCH", floor_, n, "(tag matches in %s)" % fname)
     return n
 
 
@@ -1227,4 +1235,48 @@ def rule_cache_switch_polarity(ctx):
             else:
                 ctx.violated("CACHEPOL", key, f.where(s.get("l", f.line)), "`%s` evaluates to %s for a request to switch caching on and to %s for off: asking for caching switches it off" % (render(x[3])[:60], on, off))
     ctx.floor("CACHEPOL", 2, n, "(stores of the caching switch)")
+    return n
+
+
+def rule_free_hint_only_lowered(ctx):
+    """LOWWATER (C12): the bit vector that records which references of a tag are in use keeps a hint, `last_zero`: no free bit exists
+    below it, so the search for a free reference starts there.  bv_set does not search; when it clears a bit it may only *lower*
+    the hint to that bit's byte (`if (x < last_zero) last_zero = x`).  Setting the hint unconditionally can raise it past free
+    bits: the next search starts above them, finds nothing up to 65535 and reports that no reference is free while almost all
+    are."""
+    from .codec import ast_walk
+    prog = ctx.prog
+    f = prog.func("bv_set")
+    if f is None or not f.raw.get("ast"):
+        ctx.unrecognised("LOWWATER", "LOWWATER:bv_set", "-", "bv_set not found")
+        return 0
+    sites = []
+
+    def vis(nd, st):
+        if nd[0] == "s":
+            for x in walk(nd[1], True):
+                if x[0] == "asg" and x[1] == "=" and (mem_field(x[2]) or (0, 0))[1] == "last_zero":
+                    sites.append((x, nd, list(st)))
+        return True
+
+    ast_walk(f.raw["ast"], vis)
+    n = 0
+    for x, nd, st in sites:
+        n += 1
+        key = "LOWWATER:bv_set#%d" % n
+        line = nd[-3] if isinstance(nd[-3], int) else f.line
+        v = render(strip(x[3]))
+        fld = render(strip(x[2]))
+        ok = False
+        chain = st + [nd]
+        for i, s_ in enumerate(st):
+            if s_[0] == "if" and chain[i + 1] is s_[2]:
+                for c in walk(s_[1], True):
+                    if c[0] == "bin" and ((c[1] == "<" and render(strip(c[2])) == v and render(strip(c[3])) == fld) or (c[1] == ">" and render(strip(c[2])) == fld and render(strip(c[3])) == v)):
+                        ok = True
+        if ok:
+            ctx.holds("LOWWATER", key, f.where(line), "the hint is set to `%s` only when that is below its current value" % v, nontrivial=True)
+        else:
+            ctx.violated("LOWWATER", key, f.where(line), "bv_set assigns `%s = %s` without testing that this lowers the hint: free bits below the new value are never found again" % (fld, v))
+    ctx.floor("LOWWATER", 1, n, "(stores into the free-bit hint outside the search routine)")
     return n
